@@ -1,7 +1,7 @@
 (* C07 -- Every block the node produces is one every node accepts.
    Statements only; proofs in proofs/ProducerProofs.v, model in model/Producer.v
-   (= /repo HEAD e1b5241 incl. the fixes f62222f, e0300b2, 1214e31, 9879695, ffb4da9, 6b3137c,
-   60ba6d1, b8552b5, bb88717, f640126, e1b5241).
+   (= /repo HEAD 6a5c788 incl. the fixes f62222f, e0300b2, 1214e31, 9879695, ffb4da9, 6b3137c,
+   60ba6d1, b8552b5, bb88717, f640126, e1b5241, df3ca14, 6a5c788).
 
    Block::create / Mempool::bundle_block / Mempool::can_bundle_block and Block::validate are
    modelled as written; the economic part of generate_consensus_values is the abstract
@@ -10,14 +10,16 @@
    has left out pooled transactions that collide with a rebroadcast), in validate on the
    finished block (rebroadcast and fee transactions appended, header filled).
 
-   FULL STATEMENT (false on the code as it is -- see the *_refuted witnesses, which are
-   recorded runs of the real code):
+   FULL STATEMENT (false on the code as it is -- see C07_produced_validates_refuted_issuance,
+   a recorded run of the real code):
        forall pool golden-ticket timestamp chain,
          bundle ... = Ok (Bundled b, _) -> node_accepts n b = Ok true /\ node_accepts n2 b = Ok true
    What is proved: the same for every production outside the decidable class [Known_C07]
-   (the findings listed in known_findings.txt under property=C07), under the structural
-   side conditions spelled out in C07_bundle_produced_validates.  Every hypothesis of that
-   theorem is either a listed defect class or an obligation on [cv] / on the pool. *)
+   (the one finding still listed in known_findings.txt under property=C07: an Issuance-typed
+   transaction in the pool), under the structural side conditions spelled out in
+   C07_bundle_produced_validates.  Every hypothesis of that theorem is the listed class, an
+   obligation on [cv], or the pool invariant that C07_pool_stays_young / C07_intake_keeps_young
+   establish.  The classes fixed in /repo since the first round stay as *_regression Examples. *)
 From Saito Require Import Base Producer ProducerProofs.
 
 Section C07.
@@ -26,7 +28,6 @@ Section C07.
   Variable cv : chain -> list N -> block -> cvrec.
   Variable tx_valid : chain -> list N -> tx -> bool.
   Variable gt_ok : chain -> tx -> bool.
-  Variable gt_screen : chain -> tx -> bool.
   Variable work_needed : N -> N -> N -> N -> N.
   Variable supply_ok : chain -> list N -> block -> bool.
   Variable hchain : list N -> N.
@@ -35,11 +36,10 @@ Section C07.
   Notation create := (create chain view cv hchain mroot).
   Notation validate := (validate chain view cv tx_valid gt_ok work_needed mroot).
   Notation node_accepts := (node_accepts chain view cv tx_valid gt_ok work_needed supply_ok mroot).
-  Notation bundle := (bundle chain view cv tx_valid gt_screen work_needed hchain mroot).
+  Notation bundle := (bundle chain view cv tx_valid gt_ok work_needed hchain mroot).
   Notation can_bundle := (can_bundle chain view work_needed).
   Notation intake := (add_transaction_if_validates chain tx_valid).
-  Notation screen := (screen_ticket chain view gt_screen).
-  Notation Known_C07 := (Known_C07 chain view cv tx_valid gt_ok work_needed).
+  Notation screen := (screen_ticket chain view gt_ok).
   Notation tip_hash := (tip_hash_of chain view).
 
   (* [agreesb cC cV], field by field: what Block::validate recomputes on the finished block
@@ -109,15 +109,14 @@ Section C07.
     work_needed (par_burnfee p) ts (par_ts p) (v_heartbeat (view (n_chain _ n)))
       <= nsum (map t_work (opt_list gt ++ kept)) ->
     validate dbg n true b = Ok true.
-  Proof. exact (produced_validates_F chain view cv tx_valid gt_ok gt_screen work_needed hchain mroot). Qed.
+  Proof. exact (produced_validates_F chain view cv tx_valid gt_ok work_needed hchain mroot). Qed.
 
-  (* the same as "forall x, ~ Known_C07 x -> P x": Known_C07 = an Issuance-typed pooled transaction,
-     a transaction of the block that does not validate (a pooled input that left the window), kept
-     transactions carrying less than the work needed, a ticket that fails Block::validate's check *)
+  (* the same as "forall x, ~ Known_C07 x -> P x": the one listed class is an Issuance-typed
+     transaction in the pool *)
   Theorem C07_produced_validates_outside_known : forall dbg (n : node chain) creator ts gt drained b p,
     v_tip (view (n_chain _ n)) = Some p ->
     create dbg n creator ts gt drained = Ok b ->
-    Known_C07 dbg n creator ts gt drained b = false ->
+    Known_C07 drained = false ->
     let c0 := cv (n_chain _ n) (n_ledger _ n) (pre_block (Some p) (par_hash p) creator ts gt drained) in
     let kept := kept_pool c0 drained in
     let cC := cv (n_chain _ n) (n_ledger _ n) (pre_block (Some p) (par_hash p) creator ts gt kept) in
@@ -125,12 +124,15 @@ Section C07.
     agreesb dbg hchain cC cV = true ->
     cv_types_ok cC = true ->
     (c_fee_tx cC <> None -> gt <> None) ->
-    (forall g, gt = Some g -> is_type TGoldenTicket g = true) ->
+    (forall g, gt = Some g -> is_type TGoldenTicket g = true /\ gt_ok (n_chain _ n) g = true) ->
     pool_types_ok drained = true ->
     kept <> [] ->
     (v_stake_req (view (n_chain _ n)) = 0 \/ count_type TBlockStake kept = 1) ->
+    forallb (tx_valid (n_chain _ n) (n_ledger _ n)) (b_txs b) = true ->
+    work_needed (par_burnfee p) ts (par_ts p) (v_heartbeat (view (n_chain _ n)))
+      <= nsum (map t_work (opt_list gt ++ kept)) ->
     validate dbg n true b = Ok true.
-  Proof. exact (produced_validates_outside_known chain view cv tx_valid gt_ok gt_screen work_needed hchain mroot). Qed.
+  Proof. exact (produced_validates_outside_known chain view cv tx_valid gt_ok work_needed hchain mroot). Qed.
 
   (* Block::create = the plain steps (no filter) on the pool that is left *)
   Theorem C07_create_filters : forall dbg (n : node chain) creator ts gt d p,
@@ -153,39 +155,36 @@ Section C07.
 
   (* the producer's path: bundle_block returned a block => Blockchain::add_block accepts it
      (golden-ticket count of Blockchain::validate + Block::validate + check_total_supply; the
-     last one is C02's subject and enters as the hypothesis [supply_ok], see C07_dust_spend_witness).
-     No hypothesis on the solution of the pooled ticket (fix e0300b2) -- but what passes the screen
-     of bundle_block must pass Block::validate's ticket check, which since b8552b5 also refuses the
-     all-zero key (listed finding zero-key-ticket-passes-screen).  Since fix 1214e31: what create
-     leaves out must not have carried the work the gate counted (listed finding
-     left-out-transaction-carried-the-work; dead branch for a young pool, C07_young_pool_nothing_left_out). *)
-  Theorem C07_bundle_produced_validates : forall dbg (n : node chain) creator m ts gt stake order b m' p,
+     last one is C02's subject and enters as the hypothesis [supply_ok]).
+     No hypothesis about the pooled ticket (the screen of bundle_block IS Block::validate's check:
+     e0300b2, 6a5c788) and none about what Block::create leaves out: the pool is young -- every
+     pooled input can still be spent in block [next] -- which the intake (bb88717) and the
+     re-validation after every block addition (df3ca14) maintain (C07_pool_stays_young), and a young
+     pool collides with no rebroadcast.  [key_block k] = the block id inside utxoset key k. *)
+  Theorem C07_bundle_produced_validates : forall (key_block : N -> N) gp next dbg (n : node chain) creator m ts gt stake order b m' p,
     v_tip (view (n_chain _ n)) = Some p ->
     bundle dbg n creator m ts gt stake order = Ok (Bundled b, m') ->
     forall gt' m0 s m1,
     screen n m gt = (gt', m0) ->
     stake = Some s -> intake dbg n m0 s = Ok m1 ->
     let drained := drain_in order (m_txs m1) in
-    let c0 := cv (n_chain _ n) (n_ledger _ n) (pre_block (Some p) (par_hash p) creator ts gt' drained) in
-    let kept := kept_pool c0 drained in
-    let cC := cv (n_chain _ n) (n_ledger _ n) (pre_block (Some p) (par_hash p) creator ts gt' kept) in
+    let cC := cv (n_chain _ n) (n_ledger _ n) (pre_block (Some p) (par_hash p) creator ts gt' drained) in
     let cV := cv (n_chain _ n) (n_ledger _ n) b in
+    (forall x, tx_valid (n_chain _ n) (n_ledger _ n) x = true -> young_tx key_block gp next x = true) ->
+    young_pool key_block gp next (m_txs m) = true ->
+    rebroadcasts_due key_block gp next cC = true ->
     agreesb dbg hchain cC cV = true ->
     cv_types_ok cC = true ->
     (c_fee_tx cC <> None -> gt' <> None) ->
     (forall g, gt = Some g -> is_type TGoldenTicket g = true) ->
-    (forall g, gt = Some g -> gt_screen (n_chain _ n) g = true -> gt_ok (n_chain _ n) g = true) ->
     pool_types_ok (m_txs m1) = true ->
     count_type TIssuance (m_txs m1) = 0 ->
-    (v_stake_req (view (n_chain _ n)) = 0 \/ count_type TBlockStake kept = 1) ->
+    (v_stake_req (view (n_chain _ n)) = 0 \/ count_type TBlockStake (m_txs m1) = 1) ->
     forallb (tx_valid (n_chain _ n) (n_ledger _ n)) (b_txs b) = true ->
     m_work m <= nsum (map t_work (m_txs m)) ->
-    kept <> [] ->
-    nsum (map t_work (m_txs m1)) <= nsum (map t_work kept)
-      \/ work_needed (par_burnfee p) ts (par_ts p) (v_heartbeat (view (n_chain _ n))) <= nsum (map t_work kept) ->
     supply_ok (n_chain _ n) (n_ledger _ n) b = true ->
     node_accepts dbg n b = Ok true.
-  Proof. exact (bundle_produced_validates chain view cv tx_valid gt_ok gt_screen work_needed supply_ok hchain mroot). Qed.
+  Proof. exact (bundle_produced_validates chain view cv tx_valid gt_ok work_needed supply_ok hchain mroot). Qed.
 
   (* any other node holding the same chain answers the same: validation reads the chain and
      the ledger, and the ledger is the replay of the chain on every node (C03's invariant,
@@ -217,8 +216,8 @@ Section C07.
     v_tip (view (n_chain _ n)) = Some p ->
     bundle dbg n creator m ts gt stake order = Ok (Bundled b, m') ->
     fst (screen n m gt) = Some g ->
-    gt = Some g /\ gt_screen (n_chain _ n) g = true.
-  Proof. exact (bundled_ticket_solves chain view cv tx_valid gt_screen work_needed hchain mroot). Qed.
+    gt = Some g /\ gt_ok (n_chain _ n) g = true.
+  Proof. exact (bundled_ticket_solves chain view cv tx_valid gt_ok work_needed hchain mroot). Qed.
 
   (* the producer recovers: with a pooled ticket for the tip that does not solve it, ONE call of
      bundle_block (clock after the tip) behaves exactly like the call without a ticket on the pool
@@ -227,31 +226,14 @@ Section C07.
   Theorem C07_invalid_gt_recovers : forall dbg (n : node chain) creator m ts g stake order out m',
     (match v_tip (view (n_chain _ n)) with Some p => par_ts p | None => 0 end) < ts ->
     pick_gt m (tip_hash n) = Some g ->
-    gt_screen (n_chain _ n) g = false ->
+    gt_ok (n_chain _ n) g = false ->
     bundle dbg n creator m ts (pick_gt m (tip_hash n)) stake order = Ok (out, m') ->
     pick_gt m' (tip_hash n) = None
     /\ bundle dbg n creator (drop_ticket chain view n m g) ts None stake order = Ok (out, m').
-  Proof. exact (producer_recovers chain view cv tx_valid gt_screen work_needed hchain mroot). Qed.
+  Proof. exact (producer_recovers chain view cv tx_valid gt_ok work_needed hchain mroot). Qed.
 
-  (* ... but the screen is weaker than Block::validate's check: a pooled ticket for the tip that
-     solves it and names the all-zero key is handed to Block::create on every tick, the block is
-     never valid, bundle_block leaves the ticket map alone and add_block_failure deletes under the
-     hash of the failed block: the producer is stuck as before e0300b2 *)
-  Theorem C07_screened_bad_ticket_stays : forall dbg (n : node chain) creator m ts g stake order out m' p,
-    v_tip (view (n_chain _ n)) = Some p ->
-    par_ghost p = false ->
-    par_ts p < ts ->
-    pick_gt m (par_hash p) = Some g ->
-    is_type TGoldenTicket g = true ->
-    gt_screen (n_chain _ n) g = true ->
-    gt_ok (n_chain _ n) g = false ->
-    pool_types_ok (m_txs m) = true ->
-    (forall b0, cv_types_ok (cv (n_chain _ n) (n_ledger _ n) b0) = true) ->
-    bundle dbg n creator m ts (pick_gt m (par_hash p)) stake order = Ok (out, m') ->
-    pick_gt m' (par_hash p) = Some g
-    /\ forall b, out = Bundled b -> node_accepts dbg n b <> Ok true.
-  Proof. exact (screened_bad_ticket_stays chain view cv tx_valid gt_ok gt_screen work_needed supply_ok hchain mroot). Qed.
-
+  (* add_block_failure deletes under the hash of the FAILED block: a ticket for the tip stays pooled
+     (harmless now that bundle_block screens it) *)
   Theorem C07_failure_keeps_ticket : forall dbg (n : node chain) m h mine b m1 tip,
     after_failure chain tx_valid dbg n m h mine b = Ok m1 -> h <> tip ->
     pool_types_ok (m_txs m) = true ->
@@ -266,7 +248,7 @@ Section C07.
     rebroadcasts_due key_block gp next c0 = true ->
     young_pool key_block gp next d = true ->
     kept_pool c0 d = d.
-  Proof. exact (young_pool_kept chain gt_ok gt_screen work_needed). Qed.
+  Proof. exact (young_pool_kept chain gt_ok work_needed). Qed.
 
   (* the intake keeps the pool young while the tip stays (Transaction::validate refuses older inputs) *)
   Theorem C07_intake_keeps_young : forall (key_block : N -> N) gp next dbg (n : node chain) m t m1,
@@ -276,11 +258,8 @@ Section C07.
     young_pool key_block gp next (m_txs m1) = true.
   Proof. exact (intake_keeps_young chain tx_valid). Qed.
 
-  (* so from a young pool the left-out branch of Block::create is dead and the hypothesis of
-     C07_bundle_produced_validates about the left-out work holds.  What is MISSING in the code is
-     the other half of the invariant: when the tip moves, Blockchain::remove_block_transactions
-     re-validates the pool against the utxoset only, not against the window
-     (see the C07_pool_not_young_refuted examples) *)
+  (* so from a young pool the left-out branch of Block::create is dead;
+     the other half of the invariant (the tip moves) is C07_pool_stays_young *)
   Theorem C07_young_pool_nothing_left_out : forall (key_block : N -> N) gp next dbg (n : node chain) m s m1 order creator ts gt p,
     v_tip (view (n_chain _ n)) = Some p ->
     (forall x, tx_valid (n_chain _ n) (n_ledger _ n) x = true -> young_tx key_block gp next x = true) ->
@@ -291,7 +270,21 @@ Section C07.
     rebroadcasts_due key_block gp next c0 = true ->
     kept_pool c0 drained = drained
     /\ nsum (map t_work (m_txs m1)) <= nsum (map t_work (kept_pool c0 drained)).
-  Proof. exact (young_pool_nothing_left_out chain view cv tx_valid gt_ok gt_screen work_needed supply_ok hchain mroot). Qed.
+  Proof. exact (young_pool_nothing_left_out chain view cv tx_valid gt_ok work_needed supply_ok hchain mroot). Qed.
+
+  (* the invariant over the life of the pool ([next_of] = id of the next block of a chain): from a
+     young pool, every sequence of arrivals (intake on the current node state), tip moves (ANY new
+     node state; re-validation of fix df3ca14) and shrinkings (a bundle drained the pool, create handed
+     part of it back) ends in a young pool -- provided no ATR / Issuance-typed transaction is pooled *)
+  Theorem C07_pool_stays_young : forall (key_block : N -> N) gp (next_of : chain -> N),
+    (forall (n : node chain) x, tx_valid (n_chain _ n) (n_ledger _ n) x = true ->
+                                young_tx key_block gp (next_of (n_chain _ n)) x = true) ->
+    forall dbg evs st st',
+    forallb (fun e => negb (arrives_exempt chain e)) evs = true ->
+    PoolInv chain key_block gp next_of st ->
+    prun chain tx_valid key_block gp next_of dbg st evs = Ok st' ->
+    PoolInv chain key_block gp next_of st'.
+  Proof. exact (pool_stays_young chain tx_valid). Qed.
 
   (* ---- staking transactions of other keys are not pooled (fix 9879695) ---- *)
   Theorem C07_foreign_stake_refused : forall dbg (n : node chain) m t,
@@ -302,7 +295,7 @@ Section C07.
   Theorem C07_bundle_ts_declines : forall dbg (n : node chain) creator m ts gt stake order p,
     v_tip (view (n_chain _ n)) = Some p -> ts <= par_ts p ->
     bundle dbg n creator m ts gt stake order = Ok (GateClosed, m).
-  Proof. exact (bundle_ts_declines chain view cv tx_valid gt_screen work_needed hchain mroot). Qed.
+  Proof. exact (bundle_ts_declines chain view cv tx_valid gt_ok work_needed hchain mroot). Qed.
 
   (* ---- Block::create failing (fix 1214e31) ---- *)
 
@@ -330,7 +323,7 @@ Section C07.
       /\ m_work m' = nsum (map t_work (m_txs m'))
       /\ m_umap m' = flat_map t_inputs (m_txs m')
       /\ m_gts m' = m_gts m0.
-  Proof. exact (create_failure_restores chain view cv tx_valid gt_screen work_needed hchain mroot). Qed.
+  Proof. exact (create_failure_restores chain view cv tx_valid gt_ok work_needed hchain mroot). Qed.
 End C07.
 
 (* ---------------------------------------------------------------- witnesses and regressions
@@ -342,124 +335,118 @@ End C07.
    that round. *)
 Definition wn0 : N -> N -> N -> N -> N := fun _ _ _ _ => 0.
 
-(* cap: {"label": "dust-profile", "tip": 5, "gap_ms": 25000, "pool_ops": [{"op": "transfer", "payer": 2, "input": "5:1:1 amount 613335", "fee": 20000, "hops": 1, "pooled": true}, {"op": "transfer", "payer": 3, "input": "5:2:0 amount 606669", "fee": 20000, "hops": 1, "pooled": true}, {"op": "transfer", "payer": 4, "input": "5:3:0 amount 600003", "fee": 20000, "hops": 1, "pooled": true}, {"op": "transfer", "payer": 5, "input": "5:4:0 amount 593337", "fee": 20000, "hops": 1, "pooled": true}], "pool_size": 4, "cached_work": 80000, "work_needed": 0, "gt_for_tip": false, "outcome": "Accepted", "detail": "block 6 txs(types) [0, 0, 0, 0, 3] producer OnChain second node OnChain; atr multiplier 3; diffs []; create-vs-validate cv []"} *)
+(* cap: {"label": "dust-profile", "tip": 5, "gap_ms": 25000, "pool_ops": [{"op": "transfer", "payer": 2, "input": "5:2:1 amount 613335", "fee": 20000, "hops": 1, "pooled": true}, {"op": "transfer", "payer": 3, "input": "5:4:0 amount 606669", "fee": 20000, "hops": 1, "pooled": true}, {"op": "transfer", "payer": 4, "input": "5:1:0 amount 600003", "fee": 20000, "hops": 1, "pooled": true}, {"op": "transfer", "payer": 5, "input": "5:3:0 amount 593337", "fee": 20000, "hops": 1, "pooled": true}], "pool_size": 4, "cached_work": 80000, "work_needed": 0, "gt_for_tip": false, "outcome": "Accepted", "detail": "block 6 txs(types) [0, 0, 0, 0, 3] producer OnChain second node OnChain; atr multiplier 3; diffs []; create-vs-validate cv []"} *)
 Definition wit_cap : rcase :=
-  mkRC (mkView (Some (mkPar 65 5 1100000 40000 2 96428 12649111 false)) false 0 10000 840 true true) (mkM [(mkTx 69 70 TNormal 20000 [71] 0 0 false); (mkTx 72 73 TNormal 20000 [74] 0 0 false); (mkTx 75 76 TNormal 20000 [77] 0 0 false); (mkTx 78 79 TNormal 20000 [80] 0 0 false)] [71; 74; 77; 80] 80000 true true []) 18 1125000 (Some (mkTx 14 15 TBlockStake 0 [] 0 0 true)) [79; 73; 76; 70] 81 (mkCv (mkE 80000 80000 0 80000 73115 69464 3651 0 0 0 0 0 21728 12840 0 0 0 44 56 112540 8000000 0) [(mkTx 82 9 TATR 0 [83] 1 0 false)] 1 84 None) (mkCv (mkE 80000 80000 0 80000 73115 69464 3651 0 0 0 0 0 21728 12840 0 0 0 44 56 112540 8000000 0) [(mkTx 82 9 TATR 0 [83] 1 0 false)] 1 84 None) [(69, true); (72, true); (75, true); (78, true); (14, false); (82, true)] [] [] [(71, 5); (74, 5); (77, 5); (80, 5); (83, 2)] 3 [([82], 84); ([], 0)] [([78; 72; 75; 69; 82], 85)] true [[4]; [78; 72; 75; 69; 82]; [6; 1125000; 65; 96428; 40000; 2]; [80000; 80000; 0; 80000; 73115; 69464; 3651; 0; 0; 0; 0; 0; 21728; 12840; 0; 0; 0; 44; 56; 112540; 8000000; 0]; [80000; 1; 84; 85]; [1; 1]; []; [0; 0]; []].
+  mkRC (mkView (Some (mkPar 65 5 1100000 40000 2 96428 12649111 false)) false 0 10000 676 true true) (mkM [(mkTx 69 70 TNormal 20000 [71] 0 0 false); (mkTx 72 73 TNormal 20000 [74] 0 0 false); (mkTx 75 76 TNormal 20000 [77] 0 0 false); (mkTx 78 79 TNormal 20000 [80] 0 0 false)] [71; 74; 77; 80] 80000 true true []) 18 1125000 (Some (mkTx 14 15 TBlockStake 0 [] 0 0 true)) [76; 79; 70; 73] 81 (mkCv (mkE 80000 80000 0 80000 73115 69464 3651 0 0 0 0 0 21728 12840 0 0 0 44 56 112540 8000000 0) [(mkTx 82 9 TATR 0 [83] 1 0 false)] 1 84 None) (mkCv (mkE 80000 80000 0 80000 73115 69464 3651 0 0 0 0 0 21728 12840 0 0 0 44 56 112540 8000000 0) [(mkTx 82 9 TATR 0 [83] 1 0 false)] 1 84 None) [(69, true); (72, true); (75, true); (78, true); (14, false); (82, true)] [] [(71, 5); (74, 5); (77, 5); (80, 5); (83, 2)] 3 [([82], 84); ([], 0)] [([75; 78; 69; 72; 82], 85)] true [[4]; [75; 78; 69; 72; 82]; [6; 1125000; 65; 96428; 40000; 2]; [80000; 80000; 0; 80000; 73115; 69464; 3651; 0; 0; 0; 0; 0; 21728; 12840; 0; 0; 0; 44; 56; 112540; 8000000; 0]; [80000; 1; 84; 85]; [1; 1]; []; [0; 0]; []].
 
-(* gt: {"label": "invalid-golden-ticket", "tip": 4, "gap_ms": 25000, "pool_ops": [{"op": "transfer", "payer": 2, "input": "1:9:0 amount 401002", "fee": 5000, "hops": 1, "pooled": true}, {"op": "transfer", "payer": 3, "input": "3:3:0 amount 401703", "fee": 300, "hops": 2, "pooled": true}, {"op": "transfer", "payer": 4, "input": "1:29:0 amount 405004", "fee": 0, "hops": 0, "pooled": true}, {"op": "golden-ticket", "kind": "Invalid", "tip_difficulty": 2}], "pool_size": 3, "cached_work": 5150, "work_needed": 0, "gt_for_tip": true, "outcome": "Accepted", "detail": "block 5 txs(types) [0, 0, 0] producer OnChain second node OnChain; atr multiplier 1; diffs []; create-vs-validate cv []"} *)
+(* gt: {"label": "invalid-golden-ticket", "tip": 4, "gap_ms": 25000, "pool_ops": [{"op": "transfer", "payer": 2, "input": "1:9:0 amount 401002", "fee": 5000, "hops": 1, "pooled": true}, {"op": "transfer", "payer": 3, "input": "3:2:0 amount 401703", "fee": 300, "hops": 2, "pooled": true}, {"op": "transfer", "payer": 4, "input": "1:29:0 amount 405004", "fee": 0, "hops": 0, "pooled": true}, {"op": "golden-ticket", "kind": "Invalid", "tip_difficulty": 2}], "pool_size": 3, "cached_work": 5150, "work_needed": 0, "gt_for_tip": true, "outcome": "Accepted", "detail": "block 5 txs(types) [0, 0, 0] producer OnChain second node OnChain; atr multiplier 1; diffs []; create-vs-validate cv []"} *)
 Definition wit_gt : rcase :=
-  mkRC (mkView (Some (mkPar 46 4 1075000 0 2120 5300 20000000 false)) false 0 10000 3900 true true) (mkM [(mkTx 50 51 TNormal 0 [52] 0 0 false); (mkTx 53 54 TNormal 150 [55] 0 0 false); (mkTx 56 57 TNormal 5000 [58] 0 0 false)] [52; 55; 58] 5150 true true [(46, mkTx 59 60 TGoldenTicket 0 [] 0 46 true)]) 19 1100000 (Some (mkTx 13 14 TBlockStake 0 [] 0 0 true)) [51; 57; 54] 61 (mkCv (mkE 5300 5300 0 5300 3128 3128 0 0 0 0 0 0 628 628 0 0 0 1 5 0 12649111 2) [] 0 0 None) (mkCv (mkE 5300 5300 0 5300 3128 3128 0 0 0 0 0 0 628 628 0 0 0 1 5 0 12649111 2) [] 0 0 None) [(50, true); (53, true); (56, true); (13, false)] [(59, false)] [(59, false)] [(52, 1); (55, 3); (58, 1)] 5 [([], 0)] [([50; 56; 53], 62)] true [[4]; [50; 56; 53]; [5; 1100000; 46; 5300; 0; 2120]; [5300; 5300; 0; 5300; 3128; 3128; 0; 0; 0; 0; 0; 0; 628; 628; 0; 0; 0; 1; 5; 0; 12649111; 2]; [5150; 0; 0; 62]; [1; 1]; []; [0; 0]; []].
+  mkRC (mkView (Some (mkPar 46 4 1075000 0 2120 5300 20000000 false)) false 0 10000 3412 true true) (mkM [(mkTx 50 51 TNormal 0 [52] 0 0 false); (mkTx 53 54 TNormal 150 [55] 0 0 false); (mkTx 56 57 TNormal 5000 [58] 0 0 false)] [52; 55; 58] 5150 true true [(46, mkTx 59 60 TGoldenTicket 0 [] 0 46 true)]) 19 1100000 (Some (mkTx 13 14 TBlockStake 0 [] 0 0 true)) [51; 54; 57] 61 (mkCv (mkE 5300 5300 0 5300 3128 3128 0 0 0 0 0 0 628 628 0 0 0 1 5 0 12649111 2) [] 0 0 None) (mkCv (mkE 5300 5300 0 5300 3128 3128 0 0 0 0 0 0 628 628 0 0 0 1 5 0 12649111 2) [] 0 0 None) [(50, true); (53, true); (56, true); (13, false)] [(59, false)] [(52, 1); (55, 3); (58, 1)] 5 [([], 0)] [([50; 53; 56], 62)] true [[4]; [50; 53; 56]; [5; 1100000; 46; 5300; 0; 2120]; [5300; 5300; 0; 5300; 3128; 3128; 0; 0; 0; 0; 0; 0; 628; 628; 0; 0; 0; 1; 5; 0; 12649111; 2]; [5150; 0; 0; 62]; [1; 1]; []; [0; 0]; []].
 
-(* issuance: {"label": "issuance", "tip": 3, "gap_ms": 25000, "pool_ops": [{"op": "transfer", "payer": 2, "input": "1:14:0 amount 406002", "fee": 5000, "hops": 1, "pooled": true}, {"op": "transfer", "payer": 3, "input": "1:20:0 amount 404003", "fee": 300, "hops": 2, "pooled": true}, {"op": "transfer", "payer": 4, "input": "2:0:0 amount 404004", "fee": 0, "hops": 0, "pooled": true}, {"op": "issuance-typed", "pooled": true}], "pool_size": 4, "cached_work": 5150, "work_needed": 0, "gt_for_tip": false, "outcome": "Rejected", "detail": "block 4 txs(types) [0, 0, 6, 0] producer Invalid second node Invalid; atr multiplier 1; diffs []; create-vs-validate cv []"} *)
+(* issuance: {"label": "issuance", "tip": 3, "gap_ms": 25000, "pool_ops": [{"op": "transfer", "payer": 2, "input": "1:14:0 amount 406002", "fee": 5000, "hops": 1, "pooled": true}, {"op": "transfer", "payer": 3, "input": "1:20:0 amount 404003", "fee": 300, "hops": 2, "pooled": true}, {"op": "transfer", "payer": 4, "input": "2:0:0 amount 404004", "fee": 0, "hops": 0, "pooled": true}, {"op": "issuance-typed", "pooled": true}], "pool_size": 4, "cached_work": 5150, "work_needed": 0, "gt_for_tip": false, "outcome": "Rejected", "detail": "block 4 txs(types) [6, 0, 0, 0] producer Invalid second node Invalid; atr multiplier 1; diffs []; create-vs-validate cv []"} *)
 Definition wit_issuance : rcase :=
-  mkRC (mkView (Some (mkPar 27 3 1050000 0 2120 5300 31622777 false)) false 0 10000 4936 true true) (mkM [(mkTx 31 32 TNormal 150 [33] 0 0 false); (mkTx 34 35 TNormal 0 [36] 0 0 false); (mkTx 37 38 TNormal 5000 [39] 0 0 false); (mkTx 40 41 TIssuance 0 [] 0 0 true)] [33; 36; 39] 5150 true true []) 15 1075000 (Some (mkTx 11 12 TBlockStake 0 [] 0 0 true)) [35; 38; 41; 32] 42 (mkCv (mkE 5300 5300 0 5300 2586 2586 0 0 0 0 0 0 255 255 0 0 0 1 5 0 20000000 0) [] 0 0 None) (mkCv (mkE 5300 5300 0 5300 2586 2586 0 0 0 0 0 0 255 255 0 0 0 1 5 0 20000000 0) [] 0 0 None) [(31, true); (34, true); (37, true); (40, true); (11, false)] [] [] [(33, 1); (36, 2); (39, 1)] 5 [([], 0)] [([34; 37; 40; 31], 43)] true [[4]; [34; 37; 40; 31]; [4; 1075000; 27; 5300; 0; 2120]; [5300; 5300; 0; 5300; 2586; 2586; 0; 0; 0; 0; 0; 0; 255; 255; 0; 0; 0; 1; 5; 0; 20000000; 0]; [5150; 0; 0; 43]; [0; 0]; [32; 35; 38]; [5150; 1]; []].
+  mkRC (mkView (Some (mkPar 27 3 1050000 0 2120 5300 31622777 false)) false 0 10000 4699 true true) (mkM [(mkTx 31 32 TNormal 150 [33] 0 0 false); (mkTx 34 35 TNormal 0 [36] 0 0 false); (mkTx 37 38 TNormal 5000 [39] 0 0 false); (mkTx 40 41 TIssuance 0 [] 0 0 true)] [33; 36; 39] 5150 true true []) 15 1075000 (Some (mkTx 11 12 TBlockStake 0 [] 0 0 true)) [41; 38; 35; 32] 42 (mkCv (mkE 5300 5300 0 5300 2586 2586 0 0 0 0 0 0 255 255 0 0 0 1 5 0 20000000 0) [] 0 0 None) (mkCv (mkE 5300 5300 0 5300 2586 2586 0 0 0 0 0 0 255 255 0 0 0 1 5 0 20000000 0) [] 0 0 None) [(31, true); (34, true); (37, true); (40, true); (11, false)] [] [(33, 1); (36, 2); (39, 1)] 5 [([], 0)] [([40; 37; 34; 31], 43)] true [[4]; [40; 37; 34; 31]; [4; 1075000; 27; 5300; 0; 2120]; [5300; 5300; 0; 5300; 2586; 2586; 0; 0; 0; 0; 0; 0; 255; 255; 0; 0; 0; 1; 5; 0; 20000000; 0]; [5150; 0; 0; 43]; [0; 0]; [32; 35; 38]; [5150; 1]; []].
 
-(* stake: {"label": "foreign-stake", "tip": 3, "gap_ms": 25000, "pool_ops": [{"op": "transfer", "payer": 2, "input": "1:14:0 amount 406002", "fee": 5000, "hops": 1, "pooled": true}, {"op": "transfer", "payer": 3, "input": "1:20:0 amount 404003", "fee": 300, "hops": 2, "pooled": true}, {"op": "transfer", "payer": 4, "input": "2:1:0 amount 404004", "fee": 0, "hops": 0, "pooled": true}, {"op": "blockstake-typed-from-peer", "payer": 5, "pooled": false}], "pool_size": 3, "cached_work": 5150, "work_needed": 0, "gt_for_tip": false, "outcome": "Accepted", "detail": "block 4 txs(types) [0, 0, 0, 7] producer OnChain second node OnChain; atr multiplier 1; diffs []; create-vs-validate cv []"} *)
+(* stake: {"label": "foreign-stake", "tip": 3, "gap_ms": 25000, "pool_ops": [{"op": "transfer", "payer": 2, "input": "1:14:0 amount 406002", "fee": 5000, "hops": 1, "pooled": true}, {"op": "transfer", "payer": 3, "input": "1:20:0 amount 404003", "fee": 300, "hops": 2, "pooled": true}, {"op": "transfer", "payer": 4, "input": "2:0:0 amount 404004", "fee": 0, "hops": 0, "pooled": true}, {"op": "blockstake-typed-from-peer", "payer": 5, "pooled": false}], "pool_size": 3, "cached_work": 5150, "work_needed": 0, "gt_for_tip": false, "outcome": "Accepted", "detail": "block 4 txs(types) [0, 0, 7, 0] producer OnChain second node OnChain; atr multiplier 1; diffs []; create-vs-validate cv []"} *)
 Definition wit_stake : rcase :=
-  mkRC (mkView (Some (mkPar 31 3 1050000 0 2120 5300 31622777 false)) false 50000 10000 3108 true true) (mkM [(mkTx 35 36 TNormal 150 [37] 0 0 false); (mkTx 38 39 TNormal 0 [40] 0 0 false); (mkTx 41 42 TNormal 5000 [43] 0 0 false)] [37; 40; 43] 5150 true true []) 16 1075000 (Some (mkTx 44 45 TBlockStake 0 [46] 0 0 true)) [42; 36; 39; 45] 47 (mkCv (mkE 5300 5300 0 5300 2586 2586 0 0 0 0 0 0 255 255 0 0 0 0 4 0 20000000 0) [] 0 0 None) (mkCv (mkE 5300 5300 0 5300 2586 2586 0 0 0 0 0 0 255 255 0 0 0 0 4 0 20000000 0) [] 0 0 None) [(35, true); (38, true); (41, true); (44, true)] [] [] [(37, 1); (40, 2); (43, 1); (46, 1)] 5 [([], 0)] [([41; 35; 38; 44], 48)] true [[4]; [41; 35; 38; 44]; [4; 1075000; 31; 5300; 0; 2120]; [5300; 5300; 0; 5300; 2586; 2586; 0; 0; 0; 0; 0; 0; 255; 255; 0; 0; 0; 0; 4; 0; 20000000; 0]; [5150; 0; 0; 48]; [1; 1]; []; [0; 0]; []].
+  mkRC (mkView (Some (mkPar 31 3 1050000 0 2120 5300 31622777 false)) false 50000 10000 372 true true) (mkM [(mkTx 35 36 TNormal 150 [37] 0 0 false); (mkTx 38 39 TNormal 0 [40] 0 0 false); (mkTx 41 42 TNormal 5000 [43] 0 0 false)] [37; 40; 43] 5150 true true []) 16 1075000 (Some (mkTx 44 45 TBlockStake 0 [46] 0 0 true)) [36; 39; 45; 42] 47 (mkCv (mkE 5300 5300 0 5300 2586 2586 0 0 0 0 0 0 255 255 0 0 0 0 4 0 20000000 0) [] 0 0 None) (mkCv (mkE 5300 5300 0 5300 2586 2586 0 0 0 0 0 0 255 255 0 0 0 0 4 0 20000000 0) [] 0 0 None) [(35, true); (38, true); (41, true); (44, true)] [] [(37, 1); (40, 2); (43, 1); (46, 1)] 5 [([], 0)] [([35; 38; 44; 41], 48)] true [[4]; [35; 38; 44; 41]; [4; 1075000; 31; 5300; 0; 2120]; [5300; 5300; 0; 5300; 2586; 2586; 0; 0; 0; 0; 0; 0; 255; 255; 0; 0; 0; 0; 4; 0; 20000000; 0]; [5150; 0; 0; 48]; [1; 1]; []; [0; 0]; []].
 
-(* ts: {"label": "timestamp-order", "tip": 3, "gap_ms": 0, "pool_ops": [{"op": "transfer", "payer": 2, "input": "1:14:0 amount 406002", "fee": 5000, "hops": 1, "pooled": true}, {"op": "transfer", "payer": 3, "input": "1:20:0 amount 404003", "fee": 300, "hops": 2, "pooled": true}, {"op": "transfer", "payer": 4, "input": "2:2:0 amount 404004", "fee": 0, "hops": 0, "pooled": true}], "pool_size": 3, "cached_work": 5150, "work_needed": 10000000000000000000, "gt_for_tip": false, "outcome": "GateClosed", "detail": ""} *)
+(* ts: {"label": "timestamp-order", "tip": 3, "gap_ms": 0, "pool_ops": [{"op": "transfer", "payer": 2, "input": "1:14:0 amount 406002", "fee": 5000, "hops": 1, "pooled": true}, {"op": "transfer", "payer": 3, "input": "1:20:0 amount 404003", "fee": 300, "hops": 2, "pooled": true}, {"op": "transfer", "payer": 4, "input": "2:1:0 amount 404004", "fee": 0, "hops": 0, "pooled": true}], "pool_size": 3, "cached_work": 5150, "work_needed": 10000000000000000000, "gt_for_tip": false, "outcome": "GateClosed", "detail": ""} *)
 Definition wit_ts : rcase :=
-  mkRC (mkView (Some (mkPar 27 3 1050000 0 2120 5300 31622777 false)) false 0 10000 4892 true true) (mkM [(mkTx 31 32 TNormal 150 [33] 0 0 false); (mkTx 34 35 TNormal 0 [36] 0 0 false); (mkTx 37 38 TNormal 5000 [39] 0 0 false)] [33; 36; 39] 5150 true true []) 15 1050000 (Some (mkTx 11 12 TBlockStake 0 [] 0 0 true)) [32; 35; 38; 12] 0 (mkCv econ0 [] 0 0 None) (mkCv econ0 [] 0 0 None) [(31, true); (34, true); (37, true); (11, false)] [] [] [(33, 1); (36, 2); (39, 1)] 5 [([], 0)] [] true [[1]; [32; 35; 38]; [5150; 1]; []].
+  mkRC (mkView (Some (mkPar 27 3 1050000 0 2120 5300 31622777 false)) false 0 10000 3659 true true) (mkM [(mkTx 31 32 TNormal 150 [33] 0 0 false); (mkTx 34 35 TNormal 0 [36] 0 0 false); (mkTx 37 38 TNormal 5000 [39] 0 0 false)] [33; 36; 39] 5150 true true []) 15 1050000 (Some (mkTx 11 12 TBlockStake 0 [] 0 0 true)) [32; 35; 38; 12] 0 (mkCv econ0 [] 0 0 None) (mkCv econ0 [] 0 0 None) [(31, true); (34, true); (37, true); (11, false)] [] [(33, 1); (36, 2); (39, 1)] 5 [([], 0)] [] true [[1]; [32; 35; 38]; [5150; 1]; []].
 
-(* leftout: {"label": "pooled-input-ages-and-carried-the-work", "tip": 8, "gap_ms": 15000, "pool_ops": [{"op": "spend-oldest-spendable-output", "payer": 2, "input": "5:2:0 amount 393002", "fee": 60000, "pooled": true}, {"op": "transfer", "payer": 4, "input": "7:4:0 amount 406700", "fee": 0, "hops": 0, "pooled": true}, {"op": "peer-block", "own_transactions_only": true, "txs": 1, "producer": "OnChain", "second": "OnChain", "pool_after": 2, "cached_work_after": 60000}], "pool_size": 2, "cached_work": 60000, "work_needed": 213, "gt_for_tip": false, "outcome": "Rejected", "detail": "block 9 txs(types) [0, 3, 3, 3, 3, 3, 3, 3, 3, 3, 3, 3, 3, 3, 3, 3, 3, 3, 3, 3, 3, 3, 3, 3, 3, 3, 3, 3, 3, 3, 3, 3, 3, 3] producer Invalid second node Invalid; atr multiplier 1; diffs [\"total_work 0 below work needed 213 (cached pool work was 60000)\"]; create-vs-validate cv []"} *)
-Definition wit_leftout : rcase :=
-  mkRC (mkView (Some (mkPar 180 8 1175000 10164 8333 952 3200000 false)) false 0 10000 4471 true true) (mkM [(mkTx 181 182 TNormal 0 [183] 0 0 false); (mkTx 184 185 TNormal 60000 [186] 0 0 false)] [183; 186] 60000 true true []) 15 1190000 (Some (mkTx 11 12 TBlockStake 0 [] 0 0 true)) [182] 187 (mkCv (mkE 23268 0 23268 23268 10582 1628 8954 0 0 0 6566 0 1662 374 0 2188 0 2 0 10209503 2612789 0) [(mkTx 188 46 TATR 0 [189] 1 0 false); (mkTx 190 43 TATR 0 [186] 1 0 false); (mkTx 191 49 TATR 0 [192] 1 0 false); (mkTx 193 55 TATR 0 [194] 1 0 true); (mkTx 195 58 TATR 0 [196] 1 0 true); (mkTx 197 61 TATR 0 [198] 1 0 true); (mkTx 199 64 TATR 0 [200] 1 0 true); (mkTx 201 67 TATR 0 [202] 1 0 true); (mkTx 203 70 TATR 0 [204] 1 0 true); (mkTx 205 73 TATR 0 [206] 1 0 true); (mkTx 207 76 TATR 0 [208] 1 0 true); (mkTx 209 85 TATR 0 [210] 1 0 false); (mkTx 211 88 TATR 0 [212] 1 0 false); (mkTx 213 91 TATR 0 [214] 1 0 false); (mkTx 215 94 TATR 0 [216] 1 0 false); (mkTx 217 100 TATR 0 [218] 1 0 false); (mkTx 219 103 TATR 0 [220] 1 0 false); (mkTx 221 106 TATR 0 [222] 1 0 false); (mkTx 223 109 TATR 0 [224] 1 0 false); (mkTx 225 112 TATR 0 [226] 1 0 false); (mkTx 227 118 TATR 0 [228] 1 0 false); (mkTx 229 121 TATR 0 [230] 1 0 false); (mkTx 231 127 TATR 0 [232] 1 0 false); (mkTx 233 130 TATR 0 [234] 1 0 false); (mkTx 235 133 TATR 0 [236] 1 0 false); (mkTx 237 136 TATR 0 [238] 1 0 false); (mkTx 239 139 TATR 0 [240] 1 0 false); (mkTx 241 142 TATR 0 [242] 1 0 false); (mkTx 243 145 TATR 0 [244] 1 0 false); (mkTx 245 148 TATR 0 [246] 1 0 false); (mkTx 247 151 TATR 0 [248] 1 0 true); (mkTx 249 151 TATR 0 [250] 1 0 true); (mkTx 251 151 TATR 0 [252] 1 0 true)] 33 253 None) (mkCv (mkE 23268 0 23268 23268 10582 1628 8954 0 0 0 6566 0 1662 374 0 2188 0 2 0 10209503 2612789 0) [(mkTx 188 46 TATR 0 [189] 1 0 false); (mkTx 190 43 TATR 0 [186] 1 0 false); (mkTx 191 49 TATR 0 [192] 1 0 false); (mkTx 193 55 TATR 0 [194] 1 0 true); (mkTx 195 58 TATR 0 [196] 1 0 true); (mkTx 197 61 TATR 0 [198] 1 0 true); (mkTx 199 64 TATR 0 [200] 1 0 true); (mkTx 201 67 TATR 0 [202] 1 0 true); (mkTx 203 70 TATR 0 [204] 1 0 true); (mkTx 205 73 TATR 0 [206] 1 0 true); (mkTx 207 76 TATR 0 [208] 1 0 true); (mkTx 209 85 TATR 0 [210] 1 0 false); (mkTx 211 88 TATR 0 [212] 1 0 false); (mkTx 213 91 TATR 0 [214] 1 0 false); (mkTx 215 94 TATR 0 [216] 1 0 false); (mkTx 217 100 TATR 0 [218] 1 0 false); (mkTx 219 103 TATR 0 [220] 1 0 false); (mkTx 221 106 TATR 0 [222] 1 0 false); (mkTx 223 109 TATR 0 [224] 1 0 false); (mkTx 225 112 TATR 0 [226] 1 0 false); (mkTx 227 118 TATR 0 [228] 1 0 false); (mkTx 229 121 TATR 0 [230] 1 0 false); (mkTx 231 127 TATR 0 [232] 1 0 false); (mkTx 233 130 TATR 0 [234] 1 0 false); (mkTx 235 133 TATR 0 [236] 1 0 false); (mkTx 237 136 TATR 0 [238] 1 0 false); (mkTx 239 139 TATR 0 [240] 1 0 false); (mkTx 241 142 TATR 0 [242] 1 0 false); (mkTx 243 145 TATR 0 [244] 1 0 false); (mkTx 245 148 TATR 0 [246] 1 0 false); (mkTx 247 151 TATR 0 [248] 1 0 true); (mkTx 249 151 TATR 0 [250] 1 0 true); (mkTx 251 151 TATR 0 [252] 1 0 true)] 33 253 None) [(181, true); (184, false); (11, false); (188, true); (190, true); (191, true); (193, true); (195, true); (197, true); (199, true); (201, true); (203, true); (205, true); (207, true); (209, true); (211, true); (213, true); (215, true); (217, true); (219, true); (221, true); (223, true); (225, true); (227, true); (229, true); (231, true); (233, true); (235, true); (237, true); (239, true); (241, true); (243, true); (245, true); (247, true); (249, true); (251, true)] [] [] [(183, 7); (186, 5); (189, 5); (192, 5); (194, 5); (196, 5); (198, 5); (200, 5); (202, 5); (204, 5); (206, 5); (208, 5); (210, 5); (212, 5); (214, 5); (216, 5); (218, 5); (220, 5); (222, 5); (224, 5); (226, 5); (228, 5); (230, 5); (232, 5); (234, 5); (236, 5); (238, 5); (240, 5); (242, 5); (244, 5); (246, 5); (248, 5); (250, 5); (252, 5)] 3 [([188; 190; 191; 193; 195; 197; 199; 201; 203; 205; 207; 209; 211; 213; 215; 217; 219; 221; 223; 225; 227; 229; 231; 233; 235; 237; 239; 241; 243; 245; 247; 249; 251], 253); ([], 0)] [([181; 188; 190; 191; 193; 195; 197; 199; 201; 203; 205; 207; 209; 211; 213; 215; 217; 219; 221; 223; 225; 227; 229; 231; 233; 235; 237; 239; 241; 243; 245; 247; 249; 251], 254)] true [[4]; [181; 188; 190; 191; 193; 195; 197; 199; 201; 203; 205; 207; 209; 211; 213; 215; 217; 219; 221; 223; 225; 227; 229; 231; 233; 235; 237; 239; 241; 243; 245; 247; 249; 251]; [9; 1190000; 180; 952; 10164; 14899]; [23268; 0; 23268; 23268; 10582; 1628; 8954; 0; 0; 0; 6566; 0; 1662; 374; 0; 2188; 0; 2; 0; 10209503; 2612789; 0]; [0; 33; 253; 254]; [0; 0]; [182]; [0; 1]; []].
-
-(* aged: {"label": "pooled-dust-input-ages", "tip": 8, "gap_ms": 25000, "pool_ops": [{"op": "transfer", "payer": 2, "input": "5:15:0 amount 396682", "fee": 20000, "hops": 1, "pooled": true}, {"op": "transfer", "payer": 3, "input": "5:20:0 amount 396683", "fee": 20000, "hops": 1, "pooled": true}, {"op": "transfer", "payer": 4, "input": "5:25:0 amount 396684", "fee": 20000, "hops": 1, "pooled": true}, {"op": "transfer-creating-a-60-nolan-output", "payer": 5, "pooled": true}, {"op": "spend-oldest-spendable-output", "payer": 5, "input": "5:1:0 amount 60", "fee": 10, "pooled": true}, {"op": "peer-block", "own_transactions_only": true, "txs": 1, "producer": "OnChain", "second": "OnChain", "pool_after": 5, "cached_work_after": 80010}], "pool_size": 5, "cached_work": 80010, "work_needed": 0, "gt_for_tip": false, "outcome": "Rejected", "detail": "block 9 txs(types) [0, 3, 3, 3, 3, 3, 3, 3, 3, 3, 3, 3, 3, 3, 3, 3, 3, 3, 3, 3, 3, 3, 3, 3, 3, 3, 3, 3] producer Invalid second node Invalid; atr multiplier 1; diffs []; create-vs-validate cv []"} *)
+(* aged: {"label": "pooled-dust-input-ages", "tip": 8, "gap_ms": 25000, "pool_ops": [{"op": "transfer", "payer": 2, "input": "5:15:0 amount 396682", "fee": 20000, "hops": 1, "pooled": true}, {"op": "transfer", "payer": 3, "input": "5:20:0 amount 396683", "fee": 20000, "hops": 1, "pooled": true}, {"op": "transfer", "payer": 4, "input": "5:25:0 amount 396684", "fee": 20000, "hops": 1, "pooled": true}, {"op": "transfer-creating-a-60-nolan-output", "payer": 5, "pooled": true}, {"op": "spend-oldest-spendable-output", "payer": 5, "input": "5:4:0 amount 60", "fee": 10, "pooled": true}, {"op": "peer-block", "own_transactions_only": true, "txs": 1, "producer": "OnChain", "second": "OnChain", "pool_after": 0, "cached_work_after": 0}], "pool_size": 0, "cached_work": 0, "work_needed": 0, "gt_for_tip": false, "outcome": "GateClosed", "detail": ""} *)
 Definition wit_aged : rcase :=
-  mkRC (mkView (Some (mkPar 201 8 1175000 154480 114482 82878 3200000 false)) false 0 10000 3736 true true) (mkM [(mkTx 202 203 TNormal 20000 [204] 0 0 false); (mkTx 205 206 TNormal 20000 [207] 0 0 false); (mkTx 208 209 TNormal 10 [210] 0 0 false); (mkTx 211 212 TNormal 20000 [213] 0 0 false); (mkTx 214 215 TNormal 20000 [216] 0 0 false)] [204; 207; 210; 213; 216] 80010 true true []) 18 1200000 (Some (mkTx 14 15 TBlockStake 0 [] 0 0 true)) [209] 217 (mkCv (mkE 286630 10 286620 286570 171236 32440 138796 0 0 0 181436 0 29328 9735 0 60478 0 20 0 9556143 2023858 0) [(mkTx 218 61 TATR 0 [219] 1 0 false); (mkTx 220 55 TATR 0 [221] 1 0 false); (mkTx 222 58 TATR 0 [223] 1 0 false); (mkTx 224 52 TATR 0 [225] 1 0 false); (mkTx 226 67 TATR 0 [227] 1 0 true); (mkTx 228 70 TATR 0 [229] 1 0 true); (mkTx 230 73 TATR 0 [231] 1 0 true); (mkTx 232 76 TATR 0 [233] 1 0 true); (mkTx 234 79 TATR 0 [235] 1 0 true); (mkTx 236 82 TATR 0 [237] 1 0 true); (mkTx 238 85 TATR 0 [239] 1 0 true); (mkTx 240 88 TATR 0 [241] 1 0 true); (mkTx 242 91 TATR 0 [243] 1 0 false); (mkTx 244 94 TATR 0 [245] 1 0 false); (mkTx 246 97 TATR 0 [213] 1 0 false); (mkTx 247 106 TATR 0 [248] 1 0 false); (mkTx 249 109 TATR 0 [250] 1 0 false); (mkTx 251 112 TATR 0 [216] 1 0 false); (mkTx 252 121 TATR 0 [253] 1 0 false); (mkTx 254 124 TATR 0 [255] 1 0 false); (mkTx 256 127 TATR 0 [207] 1 0 false); (mkTx 257 136 TATR 0 [258] 1 0 false); (mkTx 259 139 TATR 0 [260] 1 0 false); (mkTx 261 142 TATR 0 [204] 1 0 false); (mkTx 262 151 TATR 0 [263] 1 0 true); (mkTx 264 151 TATR 0 [265] 1 0 true); (mkTx 266 151 TATR 0 [267] 1 0 true)] 27 268 None) (mkCv (mkE 286630 10 286620 286570 171236 32440 138796 0 0 0 181436 0 29328 9735 0 60478 0 20 0 9556143 2023858 0) [(mkTx 218 61 TATR 0 [219] 1 0 false); (mkTx 220 55 TATR 0 [221] 1 0 false); (mkTx 222 58 TATR 0 [223] 1 0 false); (mkTx 224 52 TATR 0 [225] 1 0 false); (mkTx 226 67 TATR 0 [227] 1 0 true); (mkTx 228 70 TATR 0 [229] 1 0 true); (mkTx 230 73 TATR 0 [231] 1 0 true); (mkTx 232 76 TATR 0 [233] 1 0 true); (mkTx 234 79 TATR 0 [235] 1 0 true); (mkTx 236 82 TATR 0 [237] 1 0 true); (mkTx 238 85 TATR 0 [239] 1 0 true); (mkTx 240 88 TATR 0 [241] 1 0 true); (mkTx 242 91 TATR 0 [243] 1 0 false); (mkTx 244 94 TATR 0 [245] 1 0 false); (mkTx 246 97 TATR 0 [213] 1 0 false); (mkTx 247 106 TATR 0 [248] 1 0 false); (mkTx 249 109 TATR 0 [250] 1 0 false); (mkTx 251 112 TATR 0 [216] 1 0 false); (mkTx 252 121 TATR 0 [253] 1 0 false); (mkTx 254 124 TATR 0 [255] 1 0 false); (mkTx 256 127 TATR 0 [207] 1 0 false); (mkTx 257 136 TATR 0 [258] 1 0 false); (mkTx 259 139 TATR 0 [260] 1 0 false); (mkTx 261 142 TATR 0 [204] 1 0 false); (mkTx 262 151 TATR 0 [263] 1 0 true); (mkTx 264 151 TATR 0 [265] 1 0 true); (mkTx 266 151 TATR 0 [267] 1 0 true)] 27 268 None) [(202, false); (205, false); (208, false); (211, false); (214, false); (14, false); (218, true); (220, true); (222, true); (224, true); (226, true); (228, true); (230, true); (232, true); (234, true); (236, true); (238, true); (240, true); (242, true); (244, true); (246, true); (247, true); (249, true); (251, true); (252, true); (254, true); (256, true); (257, true); (259, true); (261, true); (262, true); (264, true); (266, true)] [] [] [(204, 5); (207, 5); (210, 5); (213, 5); (216, 5); (219, 5); (221, 5); (223, 5); (225, 5); (227, 5); (229, 5); (231, 5); (233, 5); (235, 5); (237, 5); (239, 5); (241, 5); (243, 5); (245, 5); (248, 5); (250, 5); (253, 5); (255, 5); (258, 5); (260, 5); (263, 5); (265, 5); (267, 5)] 3 [([218; 220; 222; 224; 226; 228; 230; 232; 234; 236; 238; 240; 242; 244; 246; 247; 249; 251; 252; 254; 256; 257; 259; 261; 262; 264; 266], 268); ([], 0)] [([208; 218; 220; 222; 224; 226; 228; 230; 232; 234; 236; 238; 240; 242; 244; 246; 247; 249; 251; 252; 254; 256; 257; 259; 261; 262; 264; 266], 269)] true [[4]; [208; 218; 220; 222; 224; 226; 228; 230; 232; 234; 236; 238; 240; 242; 244; 246; 247; 249; 251; 252; 254; 256; 257; 259; 261; 262; 264; 266]; [9; 1200000; 201; 82878; 154480; 295918]; [286630; 10; 286620; 286570; 171236; 32440; 138796; 0; 0; 0; 181436; 0; 29328; 9735; 0; 60478; 0; 20; 0; 9556143; 2023858; 0]; [10; 27; 268; 269]; [0; 0]; []; [0; 1]; []].
+  mkRC (mkView (Some (mkPar 201 8 1175000 154480 114482 82878 3200000 false)) false 0 10000 1988 true true) (mkM [] [] 0 true true []) 18 1200000 (Some (mkTx 14 15 TBlockStake 0 [] 0 0 true)) [15] 0 (mkCv econ0 [] 0 0 None) (mkCv econ0 [] 0 0 None) [(14, false)] [] [] 3 [([], 0)] [] true [[1]; []; [0; 1]; []].
 
-(* zerogt: {"label": "zero-key-ticket", "tip": 4, "gap_ms": 25000, "pool_ops": [{"op": "transfer", "payer": 2, "input": "1:9:0 amount 401002", "fee": 5000, "hops": 1, "pooled": true}, {"op": "transfer", "payer": 3, "input": "3:3:0 amount 401703", "fee": 300, "hops": 2, "pooled": true}, {"op": "transfer", "payer": 4, "input": "1:29:0 amount 405004", "fee": 0, "hops": 0, "pooled": true}, {"op": "golden-ticket", "kind": "ZeroKey", "tip_difficulty": 0}], "pool_size": 3, "cached_work": 5150, "work_needed": 0, "gt_for_tip": true, "outcome": "Rejected", "detail": "block 5 txs(types) [2, 0, 0, 0, 1] producer Invalid second node Invalid; atr multiplier 1; diffs []; create-vs-validate cv []"} *)
+(* leftout: {"label": "pooled-input-ages-and-is-left-out", "tip": 9, "gap_ms": 25000, "pool_ops": [{"op": "spend-oldest-spendable-output", "payer": 2, "input": "6:0:0 amount 400992", "fee": 7000, "pooled": true}, {"op": "transfer", "payer": 4, "input": "8:3:0 amount 405700", "fee": 300, "hops": 1, "pooled": true}, {"op": "peer-block", "own_transactions_only": true, "txs": 1, "producer": "OnChain", "second": "OnChain", "pool_after": 1, "cached_work_after": 300}], "pool_size": 1, "cached_work": 300, "work_needed": 0, "gt_for_tip": false, "outcome": "Accepted", "detail": "block 10 txs(types) [0, 3] producer OnChain second node OnChain; atr multiplier 1; diffs []; create-vs-validate cv []"} *)
+Definition wit_leftout : rcase :=
+  mkRC (mkView (Some (mkPar 185 9 1200000 3467 16630 24730 2023858 false)) false 0 10000 2674 true true) (mkM [(mkTx 186 187 TNormal 300 [188] 0 0 false)] [188] 300 true true []) 15 1225000 (Some (mkTx 11 12 TBlockStake 0 [] 0 0 true)) [187] 189 (mkCv (mkE 722 300 422 722 7910 1478 6433 0 0 0 6242 0 522 284 0 2080 0 2 0 7117421 1280000 0) [(mkTx 190 191 TATR 0 [192] 1 0 false)] 1 193 None) (mkCv (mkE 722 300 422 722 7910 1478 6433 0 0 0 6242 0 522 284 0 2080 0 2 0 7117421 1280000 0) [(mkTx 190 191 TATR 0 [192] 1 0 false)] 1 193 None) [(186, true); (11, false); (190, true)] [] [(188, 8); (192, 6)] 3 [([190], 193); ([], 0)] [([186; 190], 194)] true [[4]; [186; 190]; [10; 1225000; 185; 24730; 3467; 22872]; [722; 300; 422; 722; 7910; 1478; 6433; 0; 0; 0; 6242; 0; 522; 284; 0; 2080; 0; 2; 0; 7117421; 1280000; 0]; [300; 1; 193; 194]; [1; 1]; []; [0; 0]; []].
+
+(* zerogt: {"label": "zero-key-ticket", "tip": 4, "gap_ms": 25000, "pool_ops": [{"op": "transfer", "payer": 2, "input": "1:9:0 amount 401002", "fee": 5000, "hops": 1, "pooled": true}, {"op": "transfer", "payer": 3, "input": "3:3:0 amount 401703", "fee": 300, "hops": 2, "pooled": true}, {"op": "transfer", "payer": 4, "input": "1:29:0 amount 405004", "fee": 0, "hops": 0, "pooled": true}, {"op": "golden-ticket", "kind": "ZeroKey", "tip_difficulty": 0}], "pool_size": 3, "cached_work": 5150, "work_needed": 0, "gt_for_tip": true, "outcome": "Accepted", "detail": "block 5 txs(types) [0, 0, 0] producer OnChain second node OnChain; atr multiplier 1; diffs []; create-vs-validate cv []"} *)
 Definition wit_zerogt : rcase :=
-  mkRC (mkView (Some (mkPar 40 4 1075000 0 2120 5300 20000000 false)) false 0 10000 2103 true true) (mkM [(mkTx 42 43 TNormal 0 [44] 0 0 false); (mkTx 45 46 TNormal 150 [47] 0 0 false); (mkTx 48 49 TNormal 5000 [50] 0 0 false)] [44; 47; 50] 5150 true true [(40, mkTx 51 52 TGoldenTicket 0 [] 0 40 true)]) 15 1100000 (Some (mkTx 11 12 TBlockStake 0 [] 0 0 true)) [46; 49; 43] 53 (mkCv (mkE 5300 5300 0 5300 3128 3128 0 5300 2650 2650 0 0 1264 734 530 0 0 1 3 0 12649111 0) [] 0 0 (Some (mkTx 54 0 TFee 0 [] 0 0 true))) (mkCv (mkE 5300 5300 0 5300 3128 3128 0 5300 2650 2650 0 0 1264 734 530 0 0 1 3 0 12649111 0) [] 0 0 (Some (mkTx 54 0 TFee 0 [] 0 0 true))) [(42, true); (45, true); (48, true); (11, false); (51, true); (54, true)] [(51, false)] [(51, true)] [(44, 1); (47, 3); (50, 1)] 5 [([], 0)] [([51; 45; 48; 42; 54], 56)] true [[4]; [51; 45; 48; 42; 54]; [5; 1100000; 40; 0; 2650; 2120]; [5300; 5300; 0; 5300; 3128; 3128; 0; 5300; 2650; 2650; 0; 0; 1264; 734; 530; 0; 0; 1; 3; 0; 12649111; 0]; [5150; 0; 0; 56]; [0; 0]; [43; 46; 49]; [5150; 1]; [40]].
+  mkRC (mkView (Some (mkPar 40 4 1075000 0 2120 5300 20000000 false)) false 0 10000 4511 true true) (mkM [(mkTx 42 43 TNormal 0 [44] 0 0 false); (mkTx 45 46 TNormal 150 [47] 0 0 false); (mkTx 48 49 TNormal 5000 [50] 0 0 false)] [44; 47; 50] 5150 true true [(40, mkTx 51 52 TGoldenTicket 0 [] 0 40 true)]) 15 1100000 (Some (mkTx 11 12 TBlockStake 0 [] 0 0 true)) [43; 46; 49] 53 (mkCv (mkE 5300 5300 0 5300 3128 3128 0 0 0 0 5300 0 204 204 0 1060 0 1 5 0 12649111 0) [] 0 0 None) (mkCv (mkE 5300 5300 0 5300 3128 3128 0 0 0 0 5300 0 204 204 0 1060 0 1 5 0 12649111 0) [] 0 0 None) [(42, true); (45, true); (48, true); (11, false)] [(51, false)] [(44, 1); (47, 3); (50, 1)] 5 [([], 0)] [([42; 45; 48], 54)] true [[4]; [42; 45; 48]; [5; 1100000; 40; 5300; 0; 7420]; [5300; 5300; 0; 5300; 3128; 3128; 0; 0; 0; 0; 5300; 0; 204; 204; 0; 1060; 0; 1; 5; 0; 12649111; 0]; [5150; 0; 0; 54]; [1; 1]; []; [0; 0]; []].
 
-(* ok: {"label": "work-gated", "tip": 10, "gap_ms": 10000, "pool_ops": [{"op": "transfer", "payer": 2, "input": "10:9:0 amount 402002", "fee": 5000, "hops": 1, "pooled": true}, {"op": "transfer", "payer": 3, "input": "9:4:0 amount 406403", "fee": 300, "hops": 2, "pooled": true}, {"op": "transfer", "payer": 4, "input": "10:17:0 amount 407004", "fee": 0, "hops": 0, "pooled": true}, {"op": "golden-ticket", "kind": "Valid", "tip_difficulty": 0}], "pool_size": 3, "cached_work": 5150, "work_needed": 2000, "gt_for_tip": true, "outcome": "Accepted", "detail": "block 11 txs(types) [2, 7, 0, 0, 0, 3, 1] producer OnChain second node OnChain; atr multiplier 1; diffs []; create-vs-validate cv []"} *)
+(* injaged: {"label": "aged-spend-injected", "tip": 5, "gap_ms": 25000, "pool_ops": [{"op": "transfer", "payer": 2, "input": "5:1:0 amount 393002", "fee": 5000, "hops": 1, "pooled": true}, {"op": "transfer", "payer": 3, "input": "5:17:0 amount 399699", "fee": 300, "hops": 2, "pooled": true}, {"op": "transfer", "payer": 4, "input": "5:23:0 amount 401700", "fee": 0, "hops": 0, "pooled": true}, {"op": "spend-of-output-due-for-rebroadcast-injected-into-Mempool.transactions", "input": "2:1:0 amount 399002"}], "pool_size": 4, "cached_work": 5150, "work_needed": 0, "gt_for_tip": false, "outcome": "Accepted", "detail": "block 6 txs(types) [0, 0, 0, 3, 3] producer OnChain second node OnChain; atr multiplier 1; diffs []; create-vs-validate cv []"} *)
+Definition wit_injaged : rcase :=
+  mkRC (mkView (Some (mkPar 53 5 1100000 2650 2 15028 12649111 false)) false 0 10000 75 true true) (mkM [(mkTx 154 155 TNormal 900 [156] 0 0 false); (mkTx 157 158 TNormal 0 [159] 0 0 false); (mkTx 160 161 TNormal 150 [162] 0 0 false); (mkTx 163 164 TNormal 5000 [165] 0 0 false)] [156; 159; 162; 165] 5150 true true []) 15 1125000 (Some (mkTx 11 12 TBlockStake 0 [] 0 0 true)) [161; 164; 158] 166 (mkCv (mkE 6924 5300 1624 6924 7305 4601 2703 0 0 0 0 0 1440 851 0 0 0 3 5 5975483 8000000 0) [(mkTx 167 6 TATR 0 [156] 1 0 false); (mkTx 168 3 TATR 0 [169] 1 0 false)] 2 170 None) (mkCv (mkE 6924 5300 1624 6924 7305 4601 2703 0 0 0 0 0 1440 851 0 0 0 3 5 5975483 8000000 0) [(mkTx 167 6 TATR 0 [156] 1 0 false); (mkTx 168 3 TATR 0 [169] 1 0 false)] 2 170 None) [(154, false); (157, true); (160, true); (163, true); (11, false); (167, true); (168, true)] [] [(156, 2); (159, 5); (162, 5); (165, 5); (169, 2)] 3 [([167; 168], 170); ([], 0)] [([160; 163; 157; 167; 168], 171)] true [[4]; [160; 163; 157; 167; 168]; [6; 1125000; 53; 15028; 2650; 2]; [6924; 5300; 1624; 6924; 7305; 4601; 2703; 0; 0; 0; 0; 0; 1440; 851; 0; 0; 0; 3; 5; 5975483; 8000000; 0]; [5150; 2; 170; 171]; [1; 1]; []; [0; 0]; []].
+
+(* ok: {"label": "work-gated", "tip": 10, "gap_ms": 10000, "pool_ops": [{"op": "transfer", "payer": 2, "input": "10:9:0 amount 402002", "fee": 5000, "hops": 1, "pooled": true}, {"op": "transfer", "payer": 3, "input": "9:3:0 amount 406403", "fee": 300, "hops": 2, "pooled": true}, {"op": "transfer", "payer": 4, "input": "10:17:0 amount 407004", "fee": 0, "hops": 0, "pooled": true}, {"op": "golden-ticket", "kind": "Valid", "tip_difficulty": 0}], "pool_size": 3, "cached_work": 5150, "work_needed": 2000, "gt_for_tip": true, "outcome": "Accepted", "detail": "block 11 txs(types) [2, 0, 0, 0, 7, 3, 1] producer OnChain second node OnChain; atr multiplier 1; diffs []; create-vs-validate cv []"} *)
 Definition wit_ok : rcase :=
-  mkRC (mkView (Some (mkPar 135 10 1124998 7922 3426 5300 20001000 false)) false 50000 10000 3131 true true) (mkM [(mkTx 204 205 TNormal 5000 [206] 0 0 false); (mkTx 207 208 TNormal 150 [209] 0 0 false); (mkTx 210 211 TNormal 0 [212] 0 0 false)] [206; 209; 212] 5150 true true [(135, mkTx 213 214 TGoldenTicket 0 [] 0 135 true)]) 16 1134998 (Some (mkTx 76 77 TBlockStake 0 [215] 0 0 true)) [77; 208; 205; 211] 216 (mkCv (mkE 5300 5300 0 5300 3903 3903 0 5300 2650 2650 0 0 1895 969 331 0 0 0 3 1912930 20001000 0) [(mkTx 217 12 TATR 0 [218] 1 0 true)] 1 221 (Some (mkTx 219 0 TFee 0 [] 0 0 true))) (mkCv (mkE 5300 5300 0 5300 3903 3903 0 5300 2650 2650 0 0 1895 969 331 0 0 0 3 1912930 20001000 0) [(mkTx 217 12 TATR 0 [218] 1 0 true)] 1 221 (Some (mkTx 219 0 TFee 0 [] 0 0 true))) [(204, true); (207, true); (210, true); (76, true); (213, true); (217, true); (219, true)] [(213, true)] [(213, true)] [(206, 10); (209, 9); (212, 10); (215, 7); (218, 2)] 8 [([217], 221); ([], 0)] [([213; 76; 207; 204; 210; 217; 219], 222)] true [[4]; [213; 76; 207; 204; 210; 217; 219]; [11; 1134998; 135; 0; 10572; 3426]; [5300; 5300; 0; 5300; 3903; 3903; 0; 5300; 2650; 2650; 0; 0; 1895; 969; 331; 0; 0; 0; 3; 1912930; 20001000; 0]; [5150; 1; 221; 222]; [1; 1]; []; [0; 0]; []].
+  mkRC (mkView (Some (mkPar 135 10 1124998 7922 3426 5300 20001000 false)) false 50000 10000 393 true true) (mkM [(mkTx 222 223 TNormal 5000 [224] 0 0 false); (mkTx 225 226 TNormal 150 [227] 0 0 false); (mkTx 228 229 TNormal 0 [230] 0 0 false)] [224; 227; 230] 5150 true true [(135, mkTx 231 232 TGoldenTicket 0 [] 0 135 true)]) 16 1134998 (Some (mkTx 76 77 TBlockStake 0 [233] 0 0 true)) [229; 226; 223; 77] 234 (mkCv (mkE 5300 5300 0 5300 3903 3903 0 5300 2650 2650 0 0 1895 969 331 0 0 0 3 2044189 20001000 0) [(mkTx 235 12 TATR 0 [236] 1 0 true)] 1 239 (Some (mkTx 237 0 TFee 0 [] 0 0 true))) (mkCv (mkE 5300 5300 0 5300 3903 3903 0 5300 2650 2650 0 0 1895 969 331 0 0 0 3 2044189 20001000 0) [(mkTx 235 12 TATR 0 [236] 1 0 true)] 1 239 (Some (mkTx 237 0 TFee 0 [] 0 0 true))) [(222, true); (225, true); (228, true); (76, true); (231, true); (235, true); (237, true)] [(231, true)] [(224, 10); (227, 9); (230, 10); (233, 7); (236, 2)] 8 [([235], 239); ([], 0)] [([231; 228; 225; 222; 76; 235; 237], 240)] true [[4]; [231; 228; 225; 222; 76; 235; 237]; [11; 1134998; 135; 0; 10572; 3426]; [5300; 5300; 0; 5300; 3903; 3903; 0; 5300; 2650; 2650; 0; 0; 1895; 969; 331; 0; 0; 0; 3; 2044189; 20001000; 0]; [5150; 1; 239; 240]; [1; 1]; []; [0; 0]; []].
 
 
-Definition wn_leftout : N -> N -> N -> N -> N := fun _ _ _ _ => 213.
 Definition next_of (c : rcase) : N := match v_tip (rc_view c) with Some p => par_id p + 1 | None => 1 end.
 
 (* STILL REFUTED.  Issuance-typed transaction in the pool *)
 Example C07_produced_validates_refuted_issuance : exists b,
   rc_created wit_issuance = Ok b
-  /\ 0 < count_type TIssuance (rc_drained wit_issuance)
-  /\ rc_known wn0 wit_issuance b = true
+  /\ rc_known wit_issuance = true
   /\ rc_accepts wn0 wit_issuance b = Ok false
   /\ run_rcase wn0 wit_issuance = rc_expected wit_issuance.
 Proof. eexists. split; [vm_compute; reflexivity|]. repeat split; vm_compute; reflexivity. Qed.
 
-(* STILL REFUTED.  The pool is not young: the transaction that carries the only routing work was
-   pooled while its input (block 5) could still be spent in the next block; then another producer's
-   block arrived, remove_block_transactions re-validated the pool against the utxoset only, and the
-   input now belongs to the block that this block rebroadcasts.  can_bundle_block passes on the cached
-   work 60000 >= 213, Block::create leaves the transaction out, the block carries work 0 and fails its
-   own validation on both nodes *)
-Example C07_pool_not_young_refuted_left_out : exists b w,
-  young_pool (rc_key_blockf wit_leftout) (rc_gp wit_leftout) (next_of wit_leftout) (m_txs (rc_pool wit_leftout)) = false
+(* REGRESSION (fix df3ca14; was C07_pool_not_young_refuted_left_out / _invalid_tx).  A transaction was
+   pooled while its input could still be spent in the next block, then another producer's block moved
+   the tip: the re-validation dropped it, the pool the producer bundles from is young, the block is
+   built from all of it and accepted by both nodes *)
+Example C07_aged_input_regression : exists b,
+  m_txs (rc_pool wit_leftout) <> []
+  /\ young_pool (rc_key_blockf wit_leftout) (rc_gp wit_leftout) (next_of wit_leftout) (m_txs (rc_pool wit_leftout)) = true
   /\ rebroadcasts_due (rc_key_blockf wit_leftout) (rc_gp wit_leftout) (next_of wit_leftout) (rc_cvC wit_leftout) = true
   /\ rc_created wit_leftout = Ok b
-  /\ can_bundle unit (rc_viewf wit_leftout) wn_leftout rc_node (rc_pool wit_leftout) (rc_ts wit_leftout)
-                (is_some (rc_gt wit_leftout)) = Some w
-  /\ rc_known wn_leftout wit_leftout b = true
-  /\ nsum (map t_work (b_txs (fst (rc_pre wit_leftout)))) < 213 <= w
-  /\ Nlen (b_txs (fst (rc_pre wit_leftout))) < Nlen (rc_drained wit_leftout)
-  /\ rc_accepts wn_leftout wit_leftout b = Ok false
-  /\ run_rcase wn_leftout wit_leftout = rc_expected wit_leftout.
-Proof.
-  eexists. eexists. split; [vm_compute; reflexivity|]. split; [vm_compute; reflexivity|].
-  split; [vm_compute; reflexivity|]. split; [vm_compute; reflexivity|].
-  repeat split; vm_compute; try reflexivity; try discriminate.
-Qed.
+  /\ Nlen (b_txs (fst (rc_pre wit_leftout))) = Nlen (rc_drained wit_leftout)
+  /\ rc_known wit_leftout = false
+  /\ rc_accepts wn0 wit_leftout b = Ok true
+  /\ run_rcase wn0 wit_leftout = rc_expected wit_leftout.
+Proof. eexists. split; [vm_compute; discriminate|]. split; [vm_compute; reflexivity|]. split; [vm_compute; reflexivity|]. split; [vm_compute; reflexivity|]. repeat split; vm_compute; reflexivity. Qed.
 
-(* STILL REFUTED.  Same cause, other symptom: the aged input is a 60-nolan output that the next block
-   does not rebroadcast (it is collected as fees), so create keeps the transaction -- and
-   Transaction::validate (bb88717) refuses it inside the block: both nodes reject *)
-Example C07_pool_not_young_refuted_invalid_tx : exists b,
-  young_pool (rc_key_blockf wit_aged) (rc_gp wit_aged) (next_of wit_aged) (m_txs (rc_pool wit_aged)) = false
-  /\ rc_created wit_aged = Ok b
-  /\ forallb (rc_validf wit_aged tt []) (b_txs b) = false
-  /\ rc_known wn0 wit_aged b = true
-  /\ rc_accepts wn0 wit_aged b = Ok false
+(* ... and when everything pooled has aged (five transactions spending outputs of block 5, tip moved
+   from 7 to 8 with genesis period 3) the pool is empty and bundle_block declines *)
+Example C07_aged_pool_emptied_regression :
+  m_txs (rc_pool wit_aged) = []
+  /\ hd [] (run_rcase wn0 wit_aged) = [1]
   /\ run_rcase wn0 wit_aged = rc_expected wit_aged.
+Proof. repeat split; vm_compute; reflexivity. Qed.
+
+(* the leave-out branch of Block::create itself, fed by INJECTION (a spend of an output the block
+   rebroadcasts, put straight into Mempool.transactions past intake and re-validation): the pool is
+   not young, create leaves the transaction out, recomputes the consensus values, and the block is
+   accepted by both nodes *)
+Example C07_leave_out_branch_by_injection : exists b,
+  young_pool (rc_key_blockf wit_injaged) (rc_gp wit_injaged) (next_of wit_injaged) (m_txs (rc_pool wit_injaged)) = false
+  /\ rc_created wit_injaged = Ok b
+  /\ Nlen (b_txs (fst (rc_pre wit_injaged))) < Nlen (rc_drained wit_injaged)
+  /\ agreesb true (lookup_l (rc_hchain wit_injaged)) (rc_cvC wit_injaged) (rc_cvV wit_injaged) = true
+  /\ rc_accepts wn0 wit_injaged b = Ok true
+  /\ run_rcase wn0 wit_injaged = rc_expected wit_injaged.
 Proof. eexists. split; [vm_compute; reflexivity|]. split; [vm_compute; reflexivity|]. repeat split; vm_compute; reflexivity. Qed.
 
-(* STILL REFUTED (b8552b5 x e0300b2).  The pooled ticket for the tip solves it and names the all-zero
-   key: it passes the screen of bundle_block, Block::validate refuses it, the ticket stays *)
-Example C07_zero_key_ticket_refuted : exists b g,
-  pick_gt (rc_pool wit_zerogt) (rc_tip_hash wit_zerogt) = Some g
-  /\ rc_gtsf wit_zerogt tt g = true /\ rc_gtf wit_zerogt tt g = false
-  /\ rc_gt wit_zerogt = Some g
-  /\ rc_created wit_zerogt = Ok b
-  /\ rc_known wn0 wit_zerogt b = true
-  /\ rc_accepts wn0 wit_zerogt b = Ok false
-  /\ nth 8 (run_rcase wn0 wit_zerogt) [] <> []
+(* REGRESSION (fix 6a5c788; was C07_zero_key_ticket_refuted).  The pooled ticket for the tip solves it
+   and names the all-zero key: bundle_block's screen drops it, the block is built without a ticket,
+   both nodes accept, the ticket is gone *)
+Example C07_zero_key_ticket_regression : exists g,
+  pick_gt (rc_pool wit_zerogt) (rc_tip_hash wit_zerogt) = Some g /\ rc_gtf wit_zerogt tt g = false
+  /\ rc_gt wit_zerogt = None
+  /\ hd [] (run_rcase wn0 wit_zerogt) = [4]
+  /\ nth 5 (run_rcase wn0 wit_zerogt) [] = [1; 1]
+  /\ nth 8 (run_rcase wn0 wit_zerogt) [7] = []
   /\ run_rcase wn0 wit_zerogt = rc_expected wit_zerogt.
-Proof.
-  eexists. eexists. split; [vm_compute; reflexivity|]. split; [vm_compute; reflexivity|].
-  split; [vm_compute; reflexivity|]. split; [vm_compute; reflexivity|]. split; [vm_compute; reflexivity|].
-  repeat split; try (vm_compute; reflexivity). vm_compute. discriminate.
-Qed.
+Proof. eexists. split; [vm_compute; reflexivity|]. repeat split; vm_compute; reflexivity. Qed.
 
-(* REGRESSION (fix e1b5241; was C07_produced_validates_refuted_cap).  Payout multiplier > 1 and a
-   rebroadcast in the block: cv of the finished block agrees with the header, the rebroadcast
-   validates, both nodes accept *)
+(* REGRESSION (fix e1b5241).  Payout multiplier > 1 and a rebroadcast in the block *)
 Example C07_payout_cap_regression : exists b,
   rc_created wit_cap = Ok b
   /\ c_rebroadcasts (rc_cvC wit_cap) <> []
   /\ agreesb true (lookup_l (rc_hchain wit_cap)) (rc_cvC wit_cap) (rc_cvV wit_cap) = true
-  /\ rc_known wn0 wit_cap b = false
+  /\ rc_known wit_cap = false
   /\ rc_accepts wn0 wit_cap b = Ok true
   /\ run_rcase wn0 wit_cap = rc_expected wit_cap.
 Proof. eexists. split; [vm_compute; reflexivity|]. repeat split; try (vm_compute; reflexivity). vm_compute. discriminate. Qed.
 
-(* REGRESSION (fix e0300b2; was C07_produced_validates_refuted_gt).  The pool holds a ticket for
-   the tip whose solution does not validate: bundle_block goes on without a ticket, the block is
-   accepted by both nodes, and the ticket is gone from the pool *)
+(* REGRESSION (fix e0300b2).  A pooled ticket whose solution does not validate *)
 Example C07_invalid_ticket_regression : exists g,
-  pick_gt (rc_pool wit_gt) (rc_tip_hash wit_gt) = Some g /\ rc_gtsf wit_gt tt g = false
+  pick_gt (rc_pool wit_gt) (rc_tip_hash wit_gt) = Some g /\ rc_gtf wit_gt tt g = false
   /\ rc_gt wit_gt = None
   /\ hd [] (run_rcase wn0 wit_gt) = [4]
   /\ nth 5 (run_rcase wn0 wit_gt) [] = [1; 1]
@@ -467,14 +454,12 @@ Example C07_invalid_ticket_regression : exists g,
   /\ run_rcase wn0 wit_gt = rc_expected wit_gt.
 Proof. eexists. split; [vm_compute; reflexivity|]. repeat split; vm_compute; reflexivity. Qed.
 
-(* REGRESSION (fix 9879695; was C07_produced_validates_refuted_stake).  Staking required, a peer
-   submitted a BlockStake transaction: it is not pooled, the block carries exactly the producer's
-   own staking transaction and is accepted by both nodes *)
+(* REGRESSION (fix 9879695).  Staking required, a peer submitted a BlockStake transaction *)
 Example C07_foreign_stake_regression : exists b,
   rc_created wit_stake = Ok b
   /\ v_stake_req (rc_view wit_stake) <> 0
   /\ count_type TBlockStake (b_txs b) = 1
-  /\ rc_known wn0 wit_stake b = false
+  /\ rc_known wit_stake = false
   /\ rc_accepts wn0 wit_stake b = Ok true
   /\ run_rcase wn0 wit_stake = rc_expected wit_stake.
 Proof. eexists. split; [vm_compute; reflexivity|]. repeat split; try (vm_compute; reflexivity). vm_compute. discriminate. Qed.
@@ -493,11 +478,12 @@ Definition wn_ok : N -> N -> N -> N -> N := fun _ _ _ _ => 2000.
 Example C07_example : exists b p,
   v_tip (rc_view wit_ok) = Some p
   /\ rc_created wit_ok = Ok b
-  /\ rc_known wn_ok wit_ok b = false
+  /\ rc_known wit_ok = false
   /\ agreesb true (lookup_l (rc_hchain wit_ok)) (rc_cvC wit_ok) (rc_cvV wit_ok) = true
   /\ cv_types_ok (rc_cvC wit_ok) = true
   /\ is_some (c_fee_tx (rc_cvC wit_ok)) = true /\ is_some (rc_gt wit_ok) = true
   /\ c_rebroadcasts (rc_cvC wit_ok) <> []
+  /\ rebroadcasts_due (rc_key_blockf wit_ok) (rc_gp wit_ok) (next_of wit_ok) (rc_cvC wit_ok) = true
   /\ pool_types_ok (rc_drained wit_ok) = true
   /\ young_pool (rc_key_blockf wit_ok) (rc_gp wit_ok) (next_of wit_ok) (rc_drained wit_ok) = true
   /\ rc_drained wit_ok <> []
@@ -527,7 +513,7 @@ Example C07_gate_needs_honest_cache :
   let nd := mkNode unit tt [] in
   can_bundle unit vw wn nd m 1100 false = Some 60
   /\ exists b, create unit vw cvf h0 h0 true nd 3 1100 None [t] = Ok b
-       /\ Known_C07 unit vw cvf valid gtf (fun _ _ _ _ : N => 0) true nd 3 1100 None [t] b = false
+       /\ Known_C07 [t] = false
        /\ validate unit vw cvf valid gtf wn h0 true nd true b = Ok false.
 Proof. cbv zeta. split; [vm_compute; reflexivity|]. eexists. split; [vm_compute; reflexivity|]. split; vm_compute; reflexivity. Qed.
 
@@ -541,19 +527,20 @@ Print Assumptions C07_second_node.
 Print Assumptions C07_invalid_gt_rejected.
 Print Assumptions C07_bundled_ticket_solves.
 Print Assumptions C07_invalid_gt_recovers.
-Print Assumptions C07_screened_bad_ticket_stays.
 Print Assumptions C07_failure_keeps_ticket.
 Print Assumptions C07_young_pool_kept.
 Print Assumptions C07_intake_keeps_young.
 Print Assumptions C07_young_pool_nothing_left_out.
+Print Assumptions C07_pool_stays_young.
 Print Assumptions C07_foreign_stake_refused.
 Print Assumptions C07_bundle_ts_declines.
 Print Assumptions C07_create_error_is_double_spend.
 Print Assumptions C07_create_failure_restores.
 Print Assumptions C07_produced_validates_refuted_issuance.
-Print Assumptions C07_pool_not_young_refuted_left_out.
-Print Assumptions C07_pool_not_young_refuted_invalid_tx.
-Print Assumptions C07_zero_key_ticket_refuted.
+Print Assumptions C07_aged_input_regression.
+Print Assumptions C07_aged_pool_emptied_regression.
+Print Assumptions C07_leave_out_branch_by_injection.
+Print Assumptions C07_zero_key_ticket_regression.
 Print Assumptions C07_payout_cap_regression.
 Print Assumptions C07_invalid_ticket_regression.
 Print Assumptions C07_foreign_stake_regression.
